@@ -95,6 +95,8 @@ def _make_fn(name, sig, is_async, body_name):
         params.append("**kwargs")
     collect = "dict(%s)" % ", ".join("%s=%s" % (p, p) for p in list(sig["required"]) + list(sig["optional"]))
     src = "%sdef %s(%s):\n" % ("async " if is_async else "", name, ", ".join(params))
+    if is_async:
+        src += "    await _ov_sleep(self, %r)\n" % name
     src += "    __kw = %s\n" % collect
     if sig["varkw"]:
         src += "    __kw.update(kwargs)\n"
@@ -136,8 +138,13 @@ def make_cp_class(version, routes):
             return None
         _raise_for(out)
 
+    async def _ov_sleep(self, name):
+        d = self._ov_specs[name].get("sleep")
+        if d:
+            await asyncio.sleep(d)
+
     specs = {}
-    env = {"_on_body": _on_body, "_after_body": _after_body}
+    env = {"_on_body": _on_body, "_after_body": _after_body, "_ov_sleep": _ov_sleep}
     for r in routes:
         order = (("after", after), ("on", on)) if r.get("after_first") else (("on", on), ("after", after))
         for kind, deco in order:
@@ -192,6 +199,44 @@ def observe_frame(version, routes, raw, async_validation=False, settle=3, send_o
     finally:
         M.ASYNC_VALIDATION = old
     return rec.seq
+
+
+class ScriptedClose(Exception):
+    """stands for websockets' ConnectionClosed"""
+
+
+def observe_loop(version, routes, frames, exc_kind="closed", gate_held=False, async_validation=False):
+    """Run the real start() on a scripted connection until recv raises; return the ordered
+    recv/send/handler log and how start() ended."""
+    import ocpp.messages as M
+
+    rec = Recorder()
+    exc = {"closed": ScriptedClose("gone"), "oserror": OSError("reset"),
+           "cancelled": asyncio.CancelledError(), "eof": EOFError()}[exc_kind]
+    conn = Conn(rec, frames=frames, recv_exc=exc)
+    cls = make_cp_class(version, routes)
+    old = M.ASYNC_VALIDATION
+    M.ASYNC_VALIDATION = async_validation
+    end = {}
+
+    async def go():
+        cp = cls("cp", conn)
+        cp._ov_rec = rec
+        if gate_held:
+            await cp._call_lock.acquire()        # as if an own request were outstanding
+        try:
+            await cp.start()
+            end["how"] = ("returned", None)
+        except BaseException as e:  # noqa: BLE001
+            end["how"] = ("same" if e is exc else "other", type(e).__name__)
+        for _ in range(5):
+            await asyncio.sleep(0.002)
+
+    try:
+        asyncio.run(go())
+    finally:
+        M.ASYNC_VALIDATION = old
+    return rec.seq, end.get("how")
 
 
 # ------------------------------------------------------------------------------- rendering
